@@ -214,13 +214,28 @@ func (c *Ctx) Violate(what string, repro map[string]any, expected, got, finding 
 	if key == "" {
 		key = "?" + what
 	}
-	// keep at most 3 per finding / kind and 40 in total, the first ones (enumeration is simplest-first)
+	nv := Violation{Property: c.check.ID, Space: c.curSpace, What: what, Repro: repro, Expected: expected, Got: got, Finding: finding}
+	// keep at most 3 per finding / kind and 40 in total: the smallest ones
 	if c.vioSeen[key] >= 3 || len(c.res.Violations) >= 40 {
+		worst, wl := -1, reproLen(nv)
+		for i, v := range c.res.Violations {
+			k := v.Finding
+			if k == "" {
+				k = "?" + v.What
+			}
+			if k == key {
+				if l := reproLen(v); l > wl {
+					worst, wl = i, l
+				}
+			}
+		}
+		if worst >= 0 {
+			c.res.Violations[worst] = nv
+		}
 		return
 	}
 	c.vioSeen[key]++
-	c.res.Violations = append(c.res.Violations, Violation{Property: c.check.ID, Space: c.curSpace, What: what,
-		Repro: repro, Expected: expected, Got: got, Finding: finding})
+	c.res.Violations = append(c.res.Violations, nv)
 }
 
 // ---------------------------------------------------------------------------------------------
